@@ -1,9 +1,9 @@
 SPECIFICATION Spec
 CONSTANTS
   Calls = {1, 2, 3}
-  Tok = {1, 2, 3, 4, 5}
+  Tok = {1, 2, 3, 4}
   Cap = 2
-  Params = {3, 4, 5, 8, 19, 20, 17}
+  Params = {3, 4, 8, 17}
 INVARIANTS TypeOK InflightDistinct NoCrossParamShare FailedSound
 PROPERTIES RetryReuses OkTokenRetired
 CHECK_DEADLOCK FALSE
